@@ -123,11 +123,31 @@ def run(ctx):
                         ctx.ob("ids/%s" % name, True)
                         continue
                     w = bad[2].eval(nid, model_completion=True).as_long()
+                    # native confirmation: the same call on the compiled crate from the same selection state and counter value
+                    state = 0 if sel == (None, None) else (1 if sel == (0, None) else 2)
+                    confirmed = None
+                    for mode in ("explicit", "implicit"):
+                        real = rp.ask("builder_ids %s %d %d %s" % (name, state, w, mode))
+                        if "error" in real:
+                            continue
+                        after, before = real.get("next_id_after"), real.get("next_id_before")
+                        res_s = str(real.get("result", ""))
+                        mid = re.search(r"id:(\d+)", res_s)
+                        wrong = after < before or after - before > 1
+                        if mid and not wrong:
+                            rid_n = int(mid.group(1))
+                            if after == before + 1 and rid_n != before and not name.startswith("type_"):
+                                wrong = True
+                        if wrong:
+                            confirmed = (mode, real)
+                            break
+                    if confirmed is None and "panic" not in str(real):
+                        ctx.ob("ids/%s" % name, None, "model reports '%s' (next_id=%d, selection %s) but the compiled crate conforms: %s" % (bad[1], w, sel, str(real)[:200]))
+                        continue
                     ctx.ob("ids/%s" % name, False, "%s (next_id=%d, selection %s)" % (bad[1], w, sel))
-                    # native confirmation through the scenario crate is available for the calls it knows; otherwise report with the model's witness
                     ctx.violation("builder-ids/%s/%s" % (name, bad[0]),
                                   "Builder::%s from selection %s with next_id=%d: %s (returns %r, counter afterwards %s)" % (name, sel, w, bad[1], val, z3.simplify(z3.substitute(n1, (nid, z3.BitVecVal(w, 32))))),
-                                  {"method": name, "selection": sel, "next_id": w})
+                                  {"cmd": "builder_ids %s %d %d %s" % (name, state, w, confirmed[0] if confirmed else "explicit"), "real": confirmed[1] if confirmed else real})
     # ---- type requests
     type_methods = [(n, f, l) for n, f, l in methods if (f == "autogen_type" and n.endswith("_id")) or n == "type_pointer"]
     for name, file, line in type_methods:
